@@ -134,10 +134,11 @@ class PoolFacts:
                     polled.append(d[1])
         self.flag = self.counter = None
         for fld in polled:
-            if any(isinstance(n, ast.AugAssign) for n in written[fld]):
-                self.counter = fld
-            elif all(isinstance(n, ast.Assign) and isinstance(const_value(n.value, None), bool) for n in written[fld]):
+            if all(isinstance(n, ast.Assign) and isinstance(const_value(n.value, None), bool) for n in written[fld]):
                 self.flag = fld
+        for fld in polled:
+            if fld != self.flag and self.counter is None:
+                self.counter = fld
         if self.flag is None or self.counter is None:
             raise AnalysisError(f"polled protocol fields not discoverable (polled={polled})")
         # queues by role
